@@ -2,6 +2,7 @@ import Driver.Common
 import Driver.PureMarbles
 import Driver.PureSources
 import Driver.PureBridges
+import Driver.PureTimeConv
 open Lean Drv
 
 /-! `drv_pure`: one executable for the Pure family (C36, C37, C38, C41); dispatch on the op prefix. -/
@@ -11,6 +12,7 @@ def handle (op : String) (j : Json) : Except String Json :=
   if op.startsWith "marbles_" then DrvPureMarbles.handle op j
   else if op == "src" then DrvPureSources.handle op j
   else if op.startsWith "br_" then DrvPureBridges.handle op j
+  else if op == "tc" then DrvPureTimeConv.handle op j
   else throw s!"unknown op {op}"
 
 end DrvPure
